@@ -401,7 +401,9 @@ func (p *PsUnpacker) parseAvStream(code int, rtpts uint32, rb []byte, index int)
 						}
 					}
 				} else {
+					// a pes packet without timestamps continues the frame of the previous one: keep both of its timestamps
 					pts = p.preAudioPts
+					dts = p.preAudioDts
 				}
 			} else {
 				if pts != p.preAudioPts && p.preAudioPts >= 0 {
